@@ -172,6 +172,58 @@ func c05DoRead(in []byte) (r c05Read) {
 	return
 }
 
+// c05Scribble overwrites everything reachable from a bundle the reader returned.
+func c05Scribble(b *bundle.Bundle) {
+	inv := func(p []byte) {
+		p = p[:cap(p)]
+		for i := range p {
+			p[i] ^= 0xff
+		}
+	}
+	for _, e := range b.Exchanges {
+		if e == nil {
+			continue
+		}
+		inv(e.Response.Body)
+		for k, vs := range e.Response.Header {
+			for i := range vs {
+				vs[i] = "scribbled"
+			}
+			e.Response.Header[k] = vs
+		}
+		if e.Response.Header != nil {
+			e.Response.Header["X-Scribbled"] = []string{"1"}
+		}
+		e.Response.Status = 599
+		if e.Request.URL != nil {
+			e.Request.URL.Path, e.Request.URL.Host, e.Request.URL.RawQuery = "/scribbled", "scribbled.test", "s=1"
+		}
+		for k := range e.Request.Header {
+			e.Request.Header[k] = []string{"scribbled"}
+		}
+	}
+	for _, u := range []*url.URL{b.PrimaryURL, b.ManifestURL} {
+		if u != nil {
+			u.Path, u.Host = "/scribbled", "scribbled.test"
+		}
+	}
+	if b.Signatures != nil {
+		for _, a := range b.Signatures.Authorities {
+			if a != nil {
+				inv(a.OCSPResponse)
+				inv(a.SCTList)
+			}
+		}
+		for _, v := range b.Signatures.VouchedSubsets {
+			if v != nil {
+				inv(v.Sig)
+				inv(v.Signed)
+				v.Authority = 1 << 40
+			}
+		}
+	}
+}
+
 // c05Compare checks that what the reader returned is what the reference finds in
 // the input.  It returns "" when they agree, "skip: ..." when the reference marks
 // the input ambiguous, or a description of the difference.
@@ -257,7 +309,7 @@ func (cs *c05Case) CaseKey() string { return "C05/" + cs.base.name + ":" + cs.op
 func c05Exec(c *mc.Ctx, v interface{}) {
 	cs := v.(*c05Case)
 	ref, rerr := refbx.Extract(cs.input)
-	got := c05DoRead(cs.input)
+	got := c05DoRead(append([]byte{}, cs.input...)) // a private copy: the result is scribbled over below
 	c.Eval()
 	c.State(cs.input)
 	c.Sample(cs.CaseKey())
@@ -266,6 +318,11 @@ func c05Exec(c *mc.Ctx, v interface{}) {
 	// history: whatever this input made the reader do (refuse half-way, accept), the unmodified base
 	// bundle read right afterwards must still yield exactly its content
 	defer func() {
+		if got.ok {
+			// ... and the caller owns what a Read returned: overwriting every byte, header and URL
+			// reachable from this result must not show in the next one
+			c05Scribble(got.b)
+		}
 		after := c05DoRead(cs.base.file)
 		c.Transitions(1)
 		d := "refused: " + after.err + after.panic
